@@ -75,6 +75,10 @@ add("C12", "hypothesis-generated (T, g, supersaturation) tuples on the shipped A
     "Generated search over temperatures 500-900 K, Gibbs-Thomson energies 0..1e5 J/mol and supersaturations on Al-Zr/Al3Zr: the interfacial composition is the composition at which the driving force equals g (offset tolerance), monotone in g, sentinel monotone, sign change at the planar solvus, driving force increasing in composition, four methods agree in sign and three in value, curvature method in the limit. Generated toy binary/ternary runs (all sites, shapes, strain energy) and a share of Al-Zr / Ni-Al-Cr runs: after every step boundaries more than one class width above (below) the reported critical radius grow (shrink).",
     "documented 1 J/mol offset; stoichiometric precipitate for value agreement; growth field read from model.growth at observer time")
 
+add("C10", "hypothesis-generated (composition, temperature) points over the matrix-phase fields of the shipped databases; oracles: central finite differences of equilibrium chemical potentials, eigenvalue/symmetry predicates, Darken relation, two-code-path differential for tracer diffusivity, column-sum invariant of the mobility matrix",
+    "Generated search over Ni-Cr-Al / Ni-Cr / Ni-Al fcc, Fe-Cr-Ni fcc and bcc, Al-Zr fcc, Al-Mg-Si fcc and Cu-Ti fcc: where the global equilibrium is the matrix phase alone, the chemical-potential derivative matrix equals central finite differences of the local-equilibrium chemical potentials (1e-4), is symmetric and positive definite; the interdiffusivity has real positive eigenvalues; tracer diffusivities are positive and equal R*T*mobility obtained through the diffusion module; binaries satisfy the Darken relation with the finite-difference curvature; substitutional rows of the mobility matrix sum to zero per column.",
+    "pycalphad local/global equilibria trusted; points outside the single-phase field or with failed equilibria are counted and skipped; Al-Zr (diffusivity parameters, no mobility model) only on curvature/positivity clauses")
+
 NOT_YET = {"C09": "only the composition-cache (HashTable) clause is built so far; thermodynamic query purity on the shipped databases is pending - claimed once complete"}
 
 ALL = ["C%02d" % i for i in range(1, 21)]
